@@ -1,5 +1,6 @@
 """C05 - canonical proto3 JSON mapping (K1-K3 + J1)."""
 from . import jsonrules
+from .c15 import rule_Q4
 
 PROP = "C05"
 TECHNIQUE = "constant/table conformance against the reference's json_format source text; transform-class table vs the proto3 JSON mapping; float-taint lint on the emitters"
@@ -14,7 +15,8 @@ RULE_TEXT = "obligation = (rule, constant / default / (shape, type)); evaluation
 
 
 def run(ctx) -> None:
-    ctx.rules_run += ["K1", "K2", "K3", "J1"]
+    ctx.rules_run += ["K1", "K2", "K3", "J1", "Q4"]
+    rule_Q4(ctx)
     jsonrules.rule_K1(ctx)
     jsonrules.rule_K2(ctx)
     jsonrules.rule_K3(ctx)
